@@ -27,7 +27,8 @@ RULE = ('random lattice layouts: d in 1..3, chains and grids up to 5 / 3x3 / 3x2
         'patch); histories: for ~30% of the valid layouts 1-3 further declarations over the SAME domain / patch / mapping '
         'names are built and observed right after it in the same process (other orientations, the same joined faces '
         'paired in another way, exchanged roles, other patch / connection order, one connection less, the first '
-        'declaration again), each one checked against its own declaration; fixed histories (rows, L, 2x2, 1D, 3D; plain '
+        'declaration again; F(Omega) with the mapping of the first declaration or one of its own), each one checked '
+        'against its own declaration; fixed histories (rows, L, 2x2, 1D, 3D; plain '
         'and mapped); non-trivial = the request involves at least one interface or raises; distinct by request line')
 ASSUMPTIONS = [
     'sympde objects compare by NAME only (filed under C12): all layouts use unique patch and mapping names; the '
@@ -39,10 +40,8 @@ ASSUMPTIONS = [
     'get_subdomain drops the self-joined faces and two self-connections of one patch collide on the name A|A',
     'Python set/dict iteration order inside get_shared_corners is arbitrary; model and oracle compare the groups as sets',
     'the logical domain of a sub-domain returned by get_subdomain carries no interfaces (observed, modelled, not claimed by the property)',
-    'histories (several declarations over the same names in one process): F(Omega) is observed with one mapping name per '
-    'member of a history, because MappedDomain.__new__ is memoised on (mapping, domain) and domains compare without '
-    'their connectivity (the same F applied to a re-declared Omega returns the first F(Omega): defect of the unchanged '
-    'code, witness HIST_SAME_MAPPING_WITNESS, off)',
+    'histories (several declarations over the same names in one process) are checked member by member against the '
+    'declaration of that member; no theorem speaks about sequences (the Lean model is a pure function of one declaration)',
 ]
 MIN_NONTRIVIAL = 20
 
@@ -248,7 +247,7 @@ def variant(rng, spec, kind=None):
     """a layout with the same names as `spec` and another declaration; None if `kind` does not apply"""
     if spec.get('malformed'):
         return None
-    v = json.loads(json.dumps({k: x for k, x in spec.items() if k not in ('after', 'hidx', 'hist')}))
+    v = json.loads(json.dumps({k: x for k, x in spec.items() if k not in ('after', 'hidx', 'hist', 'same_map')}))
     d, conns = v['d'], v['conns']
     kind = kind or rng.choice(HIST_KINDS)
     if kind == 'ornt':
@@ -316,6 +315,7 @@ def gen_history(rng, spec, length):
         if v is None:
             break
         v['hidx'] = len(before)
+        v['same_map'] = rng.random() < 0.6
         v['after'] = json.loads(json.dumps([{k: x for k, x in s.items() if k != 'after'} for s in before]))
         out.append(v)
         before.append(v)
@@ -323,6 +323,7 @@ def gen_history(rng, spec, length):
     if out and rng.random() < 0.5:
         v = variant(rng, spec, 'again')
         v['hidx'] = len(before)
+        v['same_map'] = rng.random() < 0.6
         v['after'] = json.loads(json.dumps([{k: x for k, x in s.items() if k != 'after'} for s in before]))
         out.append(v)
     return out
@@ -553,17 +554,19 @@ def queries(rng, spec, b, D, t, big):
     if d == 2 and multi and len(set(sides)) == len(sides):
         qs.append(('corners', 'C13 corners %s' % L, (lambda: D.get_shared_corners())))
     if multi and all(p['map'] is None for p in spec['patches']) and d <= 3:
-        G = outer_mapping_name(spec)
+        # own mapping per member of a history: the correspondence compares the insertion order of the connectivity,
+        # and F(Omega) of an Omega re-declared with the same connections in another order is (legitimately) the
+        # memoised image of the first one; the same mapping on re-declared domains is exercised by the oracle
+        G = outer_mapping_name(spec, own=True)
         qs.append(('map', 'C13 map %s %s' % (dumps(G), L), (lambda: dom_sexp_mapped(get_mapping(t, 'Mapping', G, d)(D), t))))
     return qs
 
 
-def outer_mapping_name(spec):
-    """name of the mapping F applied to the joined plain domain (F(Omega)).  The members of a history get one
-    name each: MappedDomain.__new__ is memoised on (mapping, domain) and domains compare without their
-    connectivity, so the SAME mapping applied to a second declaration of the same names returns the first
-    mapped domain (defect of the unchanged code, see notes/C13.md; witness: HIST_SAME_MAPPING_WITNESS)"""
-    if spec.get('hidx') and not spec.get('same_map'):
+def outer_mapping_name(spec, own=False):
+    """name of the mapping F applied to the joined plain domain (F(Omega)).  A member of a history either gets the
+    mapping of the first declaration again (`same_map`: the same F applied to a re-declared Omega must mirror the
+    new declaration) or a mapping of its own"""
+    if spec.get('hidx') and (own or not spec.get('same_map')):
         return 'G%dv%d' % (spec['serial'], spec['hidx'])
     return 'G%d' % spec['serial']
 
@@ -960,8 +963,16 @@ def check_mapped(o, spec, b, D, t, tag):
     got = (sorted(str(e.name) for e in members(X.interior, t)),
            sorted(fkey(x) for x in members(X.boundary, t)),
            sorted((fkey(i.minus), fkey(i.plus), ornt_py(i.ornt)) for i in xfs))
-    if got != exp or X.logical_domain is not D:
-        o.fail(('mapped-domain-stale:' if spec.get('same_map') else 'mapped-domain:') + tag, 'F(Omega) does not have the structure of Omega face by face and interface by interface',
+    LD = X.logical_domain
+    same_ld = LD is D
+    if not same_ld and LD is not None and hasattr(LD, 'connectivity'):
+        # F(Omega) may be the (memoised) image of an earlier, identically declared Omega (histories; re-runs of a
+        # layout in the failing-input search): its logical domain must then be that Omega structure for structure
+        sig = lambda Z: (str(Z.name), sorted(str(e.name) for e in members(Z.interior, t)), sorted(fkey(x) for x in members(Z.boundary, t)),
+                         sorted((fkey(i.minus), fkey(i.plus), ornt_py(i.ornt), str(k)) for k, i in Z.connectivity.items()))
+        same_ld = sig(LD) == sig(D)
+    if got != exp or not same_ld:
+        o.fail(('mapped-domain-stale:' if spec.get('same_map') and spec.get('hidx') else 'mapped-domain:') + tag, 'F(Omega) does not have the structure of Omega face by face and interface by interface',
                got=got, expected=exp, **det)
 
 
@@ -1028,6 +1039,7 @@ def fixed_histories():
             if k:
                 s['hist'] = 'fixed'
                 s['hidx'] = k
+                s['same_map'] = True        # F(Omega): the mapping of the first declaration again
                 s['after'] = json.loads(json.dumps([{a: x for a, x in q.items() if a != 'after'} for q in specs[:k]]))
         return (name, specs)
     P = lambda i, j=0, k=0: (i, j, k)
@@ -1063,18 +1075,11 @@ def fixed_histories():
         out.append(seq('hist-row3-3d' + ('-mapped' if mapped else ''),
                        [lay(3, (3, 1, 1), 11 + mapped, 'Hg', row(3, os_), mapped)
                         for os_ in ((None, [1, 1, 1]), ([1, -1, 1], [1, 1, 1]), ([1, 1, -1], [1, -1, -1]))]))
-    if HIST_SAME_MAPPING_WITNESS:
-        w = [lay(2, (2, 1, 1), 20, 'Hw', row(2, [o])) for o in (1, -1)]
-        w[1]['same_map'] = True
-        out.append(seq('hist-same-mapping', w))
+    # F = Mapping(..); F(Omega1); F(Omega2) with Omega2 = the names and joined faces of Omega1 declared with another
+    # orientation (witness of the defect repaired by f2affa8: MappedDomain.__new__ was memoised on (mapping, domain)
+    # and answered F(Omega1) again); key 'mapped-domain-stale:fixed:hist-same-mapping:1'
+    out.append(seq('hist-same-mapping', [lay(2, (2, 1, 1), 20, 'Hw', row(2, [o])) for o in (1, -1)]))
     return out
-
-
-# F = Mapping(..); F(Omega1); F(Omega2) with Omega2 = the names and joined faces of Omega1 declared with another
-# orientation: the unchanged code answers F(Omega1) again (MappedDomain.__new__ is memoised).  The witness reports
-# it under the key 'mapped-domain-stale:fixed:hist-same-mapping:1'; it stays off until that key is entered as a
-# known finding (a failure outside the known findings makes the check fail).
-HIST_SAME_MAPPING_WITNESS = False
 
 
 def run_checks(o, rng, spec, t, tag, sels=None, prelude=True):
